@@ -57,7 +57,7 @@ def main(run: Run):
         rng.shuffle(small)
         rng.shuffle(big)
         big = [m for m in big if len(m["bytes"]) <= 4096]
-        msgs = small[:(320 if thorough else 110)] + big[:(4 if thorough else 1)]
+        msgs = small[:(220 if thorough else 110)] + big[:(4 if thorough else 1)]
         # 2. TLC enumerates (length field x mutation) over the real octets
         muts = gen_mutations(run, msgs)
         # sample per message, so that a message with a thousand NLRI does not crowd out the others
@@ -69,13 +69,13 @@ def main(run: Run):
             none = [m for m in lst if m["mut"]["m"] == "none"]
             rest = [m for m in lst if m["mut"]["m"] != "none"]
             rng.shuffle(rest)
-            cap = (220 if thorough else 60) if len(key[0]) <= maxlen else 25
+            cap = (120 if thorough else 60) if len(key[0]) <= maxlen else 25
             behs += [json.dumps(m) for m in none + rest[:cap]]
         run.extra["mutations_enumerated"] = len(muts)
         run.extra["mutations_executed"] = len(behs)
         run.extra["messages_mutated"] = len(msgs)
         # 3. extra: seeded pseudo-random octet strings with the same logged oracles (not claimed)
-        nrand = 3000 if thorough else 400
+        nrand = 1500 if thorough else 400
         sizes = [19, 20, 23, 27, 40, 64, 100, 200, 400]
         for i in range(nrand):
             behs.append(json.dumps({"random": {"i": i, "n": sizes[i % len(sizes)],
